@@ -60,7 +60,7 @@ PROPS = {
         "engines": [storm("scen", sq=12, st=12), storm("venue", arg="C04:venue", sq=4, st=4)],
         "rule": "each evaluation is one accepted borrow/withdraw (committed or simulated) or one health rejection, judged against an independent exact-rational initial-health recomputation from raw bytes and the presented oracle accounts; boundaries are located by bisection with state-preserving simulations so both neighbours of the accept/reject boundary are judged; the venue engine does the same in worlds whose collateral sits in Kamino / Solend / Drift pass-through banks (reference price = oracle price x exact venue exchange rate); distinct = (accept/reject, kind, #assets, #liabs, e-mode used, cap active, bad collateral oracle, borderline)",
         "assumptions": COMMON_ASSUMPTIONS + ["a health rejection is only judged when the caller presented the canonical risk accounts (otherwise it is attributable to mis-presented accounts)"],
-        "floors": {"quick": {"C04.accepted/Borrow": 200, "C04.accepted/Withdraw": 200, "C04.rejected_for_health/Borrow": 200, "scen.withdraw_boundary_found": 20, "C04.accepted/KaminoWithdraw": 100, "C04.accepted/SolendWithdraw": 100, "C04.accepted/DriftWithdraw": 100, "venue.withdraw_boundary_found": 20}},
+        "floors": {"quick": {"pulse.health_signs_compared/initial": 100, "C04.accepted/Borrow": 200, "C04.accepted/Withdraw": 200, "C04.rejected_for_health/Borrow": 200, "scen.withdraw_boundary_found": 20, "C04.accepted/KaminoWithdraw": 100, "C04.accepted/SolendWithdraw": 100, "C04.accepted/DriftWithdraw": 100, "venue.withdraw_boundary_found": 20}},
     },
     "C05": {
         "engines": [storm("scen", sq=12, st=12), storm("venue", arg="C05:venue", sq=4, st=4)],
@@ -72,7 +72,7 @@ PROPS = {
         "engines": [storm("scen")],
         "rule": "each evaluation is one accepted bankruptcy judged on equity (unweighted, isolated-tier deposits at full value), signer, insurance-first, pro-rata socialisation, kill state, account disabling; distinct = (regime, killed, permissionless, decimals, transfer fee)",
         "assumptions": COMMON_ASSUMPTIONS,
-        "floors": {"quick": {"C07.bankruptcies_accepted": 40, "C07.regime/partial": 3, "C07.regime/fully_insured": 3, "scen.bankruptcy_price_boundary_found": 15}},
+        "floors": {"quick": {"pulse.health_signs_compared/equity": 30, "C07.bankruptcies_accepted": 40, "C07.regime/partial": 3, "C07.regime/fully_insured": 3, "scen.bankruptcy_price_boundary_found": 15}},
     },
     "C10": {
         "engines": [storm("scen")],
@@ -128,13 +128,13 @@ PROPS = {
         "engines": [storm("admin")],
         "rule": "each evaluation is one accepted configuration-writing instruction whose post-state is judged against the listed inequalities, e-mode leverage caps (caps read at acceptance time) and the killed-state rule; distinct = quantised (weights, tier, state) and (e-mode entries, liability weights) tuples",
         "assumptions": COMMON_ASSUMPTIONS + ["the initial-implies-maintenance consequence is implied by the checked inequalities (monotone valuation); it is additionally exercised by C04/C05 at equal prices"],
-        "floors": {"quick": {"C13.accepted_config_writes/ConfigureBank": 500, "C13.accepted_config_writes/ConfigureBankEmode": 200, "C13.accepted_config_writes/CloneEmode": 100, "C13.accepted_config_writes/PropagateStakedSettings": 10}},
+        "floors": {"quick": {"pulse.health_signs_compared/maintenance": 100, "C13.accepted_config_writes/ConfigureBank": 500, "C13.accepted_config_writes/ConfigureBankEmode": 200, "C13.accepted_config_writes/CloneEmode": 100, "C13.accepted_config_writes/PropagateStakedSettings": 10}},
     },
     "C14": {
         "engines": [storm("matrix")],
         "rule": "even shards: matrix financial instruction x bank state {Paused, ReduceOnly, Killed via a real wipe-out} with positive controls, reduce-only valuation cells, and protocol-pause timing cells at start+{0,1,1799,1800,1801} with three propagation orders, committed so that the behavioural oracle (no vault / position movement during the group's pause window) sees them; odd shards: storm; distinct = (cell, state, outcome, error code)",
         "assumptions": COMMON_ASSUMPTIONS + ["'in force for a group' is defined by the pause state recorded in the group's own cache (DESIGN 4 C14)"],
-        "floors": {"quick": {"C14.matrix_controls_ok": 100, "C14.matrix_state_cells": 200, "C14.pause_window_cells": 300, "C14.after_expiry_cells": 200, "C14.receivership_on_paused_bank_cells": 30, "scen.bank_killed": 2}},
+        "floors": {"quick": {"pulse.health_signs_compared/maintenance": 100, "C14.matrix_controls_ok": 100, "C14.matrix_state_cells": 200, "C14.pause_window_cells": 300, "C14.after_expiry_cells": 200, "C14.receivership_on_paused_bank_cells": 30, "scen.bank_killed": 2}},
     },
     "C19": {
         "engines": [storm("admin")],
